@@ -17,6 +17,10 @@ CHECKS["C17"] = dict(cat="model_checking", design="DESIGN.md §4 C17",
    text="TLC checks the Loader model (stat, component-wise common root, load, match back) against 'root is the deepest existing common ancestor, packages in request order' for every request of <=3 files over directories of depth<=2 with names that are character-prefixes of each other, and exports the requests. A seeded sample of them plus fixed witnesses is materialised in scratch modules and handed to the real analysis.LoadSources (absolute and relative paths, duplicates, missing / non-Go / ill-typed files); TLC judges every recorded call.",
    note="Trusted: TLC; go/packages as the source of 'the package that contains the file'; import path = module path + directory. Real calls are a sample (70 quick / 1200 thorough) of the 9723 enumerated requests.",
    tech="TLA+ model (Loader.tla) checked by TLC + verdict-style trace validation (TraceLoader.tla) of real LoadSources calls on TLC-enumerated layouts")
+CHECKS["C10"] = dict(cat="model_checking", design="DESIGN.md §4 C10",
+   text="EnumDef.tla states exactness of enum detection over an abstract package tree (which types are enums, member sets with exact values and comments, two-sided iota rule). EnumModel.tla models the scope walk in name order and setIsIota (unstable sort as nondeterminism) and TLC checks it against EnumDef for every block of <=3/4 constants over values -1..3, exporting the blocks. Each block is rendered as real Go (random style: iota, offsets, blanks, single-line, multi-name), decorated with a same-named type in a sub-package, string/bool/float enums, opt-outs, labels and foreign-typed constants; the real analysis runs on it and TLC judges what it reported against EnumDef.",
+   note="Trusted: TLC; the synthesiser (its rendering is re-checked against go/types for every constant on every run). Universe: the analysed package tree; exhaustive over the integer core of one type up to MaxConsts, decorations are random.",
+   tech="TLA+ definition + model (EnumDef/EnumModel.tla) checked by TLC, TLC-enumerated constant blocks rendered to Go, verdict-style trace validation (TraceEnums.tla) of the real analysis")
 NOT_APPLICABLE = {}
 ALL = ["C%02d" % i for i in range(1, 21)]
 
